@@ -2,7 +2,8 @@
 
 Recipe (JSON):
   S        number of stages
-  lb, ub, step   loop bounds (constants); "ub_dyn": true passes ub as an index function argument instead
+  lb, ub, step   loop bounds (constants); "lb_dyn" / "ub_dyn" / "step_dyn": true passes that bound as an index function argument
+           instead (executed with the recipe's value), ["add", k] computes it as argument + %c<k> (argument value: bound - k)
   canon    run pipeline-canonicalize-for first (forced when lb != 0 or step != 1, as in the real pipeline)
   nG       number of big global tensors (function arguments memref<128x4xi32>) G0..
   args     rows of the small whole-buffer function arguments a0.. (memref<rx4xi32>)
@@ -82,11 +83,26 @@ def build(rc) -> Built:
     arg_specs = [(f"G{k}", GROWS) for k in range(nG)] + [(f"a{k}", r) for k, r in enumerate(args)]
     sig = [f"%G{k}: memref<{GROWS}x{T}xi32>" for k in range(nG)] + [f"%a{k}: {_ty_arg(r)}" for k, r in enumerate(args)]
     scalars = []
-    if rc.get("ub_dyn"):
-        sig.append("%n: index")
-        scalars.append(rc["ub"])
-        feats.add("ub-dynamic")
-    fty = ", ".join(s.split(": ", 1)[1] for s in sig)
+    dyn_arg = {"lb": "%nl", "ub": "%n", "step": "%ns"}
+    dyn = {}
+    for which in ("lb", "ub", "step"):
+        how = rc.get(which + "_dyn")
+        if not how:
+            continue
+        k = 0
+        if how is not True:
+            # the bound is computed from the run-time argument: %arg + %c<k>
+            if how[0] != "add" or not (0 <= how[1] < NCONST) or how[1] > rc[which]:
+                raise BadRecipe("computed run-time bound")
+            k = how[1]
+            feats.add("bound computed from a run-time argument")
+        dyn[which] = how
+        sig.append(dyn_arg[which] + ": index")
+        scalars.append(rc[which] - k)
+        feats.add(which + "-dynamic")
+    if dyn:
+        feats.add("dynamic bounds: " + "+".join(dyn))
+    fty =", ".join(s.split(": ", 1)[1] for s in sig)
     lines.append('"builtin.module"() ({')
     lines.append(f'"func.func"() <{{sym_name = "f", function_type = ({fty}) -> ()}}> ({{')
     lines.append("^bb0(" + ", ".join(sig) + "):")
@@ -99,6 +115,11 @@ def build(rc) -> Built:
 
     def bound(which):
         v = rc[which]
+        if which in dyn:
+            if dyn[which] is True:
+                return dyn_arg[which]
+            lines.append(f'  %{which} = "arith.addi"({dyn_arg[which]}, %c{dyn[which][1]}) : (index, index) -> index')
+            return "%" + which
         if which in cse and 0 <= v < NCONST:
             feats.add("cse:" + which)
             return f"%c{v}"
@@ -106,11 +127,7 @@ def build(rc) -> Built:
         return "%" + which
 
     bound_ssa["lb"] = bound("lb")
-    if rc.get("ub_dyn"):
-        ubn = "%n"
-    else:
-        ubn = bound("ub")
-    bound_ssa["ub"] = ubn
+    ubn = bound_ssa["ub"] = bound("ub")
     bound_ssa["step"] = bound("step")
     lbn, stepn = bound_ssa["lb"], bound_ssa["step"]
 
@@ -171,7 +188,7 @@ def build(rc) -> Built:
         if op in ("remui", "divui"):
             # never divide by zero or by a run-time value: divisor is a constant 1..4
             if isinstance(y, str):
-                if (y == "ub" and rc.get("ub_dyn")) or rc[y] < 1:
+                if y in dyn or rc[y] < 1:
                     raise BadRecipe("division by a run-time value or by zero")
             else:
                 b = f"%c{1 + (y % (NCONST - 1))}"
@@ -375,13 +392,21 @@ LBSTEP = [(0, 1)] * 10 + [(0, 2), (0, 3), (0, 2), (1, 1), (2, 1), (3, 2)]
 
 
 @st.composite
-def bounds(draw, S, max_trip=6):
-    lb, step = draw(st.sampled_from(LBSTEP))
+def bounds(draw, S, max_trip=6, dyn=()):
+    if "lb" in dyn or "step" in dyn:
+        # run-time values that make a difference (lb != 0, step != 1); the bounds that stay constant are mostly the
+        # canonical ones, so that only the run-time bound keeps the loop from being pipelinable
+        lb = draw(st.sampled_from([1, 2, 3, 0, 1, 2, 5] if "lb" in dyn else [0, 0, 0, 1]))
+        step = draw(st.sampled_from([2, 3, 1, 2] if "step" in dyn else [1, 1, 1, 2]))
+    else:
+        lb, step = draw(st.sampled_from(LBSTEP))
     # bulk: trip counts >= S-1 (the range the passes are written for); below S-1 is the documented-defect range
     trip = draw(st.one_of(st.integers(S - 1, max_trip), st.integers(S - 1, max_trip), st.integers(S - 1, max_trip),
                           st.integers(0, max_trip), st.sampled_from([S - 1, S, S + 1])))
+    if "lb" in dyn and draw(st.integers(0, 4)) == 0:
+        trip = 0  # run-time lb >= ub
     if trip == 0:
-        ub = lb - draw(st.integers(0, 1))
+        ub = lb - draw(st.integers(0, 2 if "lb" in dyn else 1))
     else:
         # ub not a multiple of step also occurs (same trip count)
         ub = lb + (trip - 1) * step + 1 + draw(st.integers(0, step - 1))
@@ -405,7 +430,12 @@ def loop_recipe(draw, tier="quick"):
         return draw(st.integers(0, k)) == k
 
     S = draw(st.sampled_from([3, 2, 4, 3]))
-    lb, ub, step = draw(bounds(S, 6 if tier == "quick" else 8))
+    # run-time bounds (index function arguments, or argument + constant): every combination
+    dyn = []
+    if draw(st.integers(0, 9)) >= 7:
+        dyn = draw(st.sampled_from([["lb"], ["lb"], ["ub"], ["step"], ["lb", "ub"], ["lb", "step"], ["ub", "step"],
+                                    ["lb", "ub", "step"]]))
+    lb, ub, step = draw(bounds(S, 6 if tier == "quick" else 8, dyn))
     r = draw(st.sampled_from([1, 1, 1, 2]))
     # how strictly operands follow the producer(stage s) -> consumer(stage s+1) chain, in percent
     p_chain = draw(st.sampled_from([100, 100, 97, 90, 60]))
@@ -511,10 +541,13 @@ def loop_recipe(draw, tier="quick"):
         dsts = [o for o in pool if o[0] == "a"]
         if srcs and dsts:
             post.append(["copy", draw(st.sampled_from(srcs)), draw(st.sampled_from(dsts))])
-    ub_dyn = rare(5)
     canon = True if (lb, step) != (0, 1) else draw(st.booleans())
-    rc = dict(S=S, lb=lb, ub=ub, step=step, ub_dyn=ub_dyn, canon=canon, nG=nG, args=args, l1=l1, idx=idx, views=views,
+    rc = dict(S=S, lb=lb, ub=ub, step=step, ub_dyn=False, canon=canon, nG=nG, args=args, l1=l1, idx=idx, views=views,
               stages=stages, post=post)
+    for w in dyn:
+        v = rc[w]
+        # mostly the argument itself, sometimes a value computed from it (argument + %c<k>)
+        rc[w + "_dyn"] = True if not rare(3) else ["add", draw(st.integers(0, max(0, min(v, NCONST - 1))))]
     if draw(st.integers(0, 4)) >= 2:
         _share_bounds(draw, rc, r)
     return rc
@@ -542,7 +575,7 @@ def _share_bounds(draw, rc, r):
     for _ in range(draw(st.integers(0, 2))):
         w = which()
         # the pool position of the constant of that value (shared iff "cse"), or the bound's SSA value itself
-        ref = 1 + rc[w] if (w in cse and 0 <= rc[w] < NCONST and not (w == "ub" and rc["ub_dyn"])) else w
+        ref = 1 + rc[w] if (w in cse and 0 <= rc[w] < NCONST and not rc.get(w + "_dyn")) else w
         k = draw(st.integers(0, 3))
         if k == 0 and rc["idx"]:
             e = draw(st.sampled_from(rc["idx"]))
